@@ -20,6 +20,9 @@ for d in sorted(glob.glob(os.path.join(VERIF, "seeded", "*"))):
     suite = (m.get("confirmed") or {}).get("baseline_suite_with_change") or ""
     invalid = not suite.startswith("2129 passed")
     how = "; ".join(f"**{p}** `{(v.split(':', 1)[0].replace('key=', '') + ':' + v.split(':', 2)[1]) if v.count(':') > 1 else v}`"[:90] for p, v in caught.items()) or ("not a valid seeded change on the current tree (baseline suite with it: " + (suite[:40] or "does not apply") + ")" if invalid else "**missed**")
+    na = os.path.join(d, "OUTSIDE_THE_PROPERTY.txt")
+    if not caught and os.path.exists(na):
+        how = "not alarmed on purpose: " + open(na).read().strip().replace("\n", " ")[:220]
     rows.append(f"| {name} | {', '.join(os.path.basename(f) for f in files)} | {first} | {how} |")
 table = ("| seeded change | file(s) | what it is (first line of the author's note) | caught by (check, first violation key) |\n|---|---|---|---|\n" + "\n".join(rows))
 p = os.path.join(VERIF, "DESIGN.md")
